@@ -20,7 +20,8 @@ def main():
     a = ap.parse_args()
     logging.disable(logging.CRITICAL)
     if a.setup:
-        tr = vlib.regen()
+        with vlib.RepoLock():
+            tr = vlib.regen()
         for k, v in tr.items():
             print('translator', k, 'ok' if v is None else 'FAILED: ' + v)
         b = vlib.coq_build(['all'], timeout=7000)
@@ -37,7 +38,8 @@ def main():
     mod = importlib.import_module('props.' + pid.lower())
     rep = vlib.Report(pid, a.tier, a.seed)
     try:
-        mod.run(rep, a.tier, a.seed)
+        with vlib.RepoLock():
+            mod.run(rep, a.tier, a.seed)
     except Exception:
         # a crash of the machinery itself is not evidence about the property: report it loudly, exit 2
         traceback.print_exc()
